@@ -12,7 +12,9 @@ import (
 type SampleOp = func(left, right Sample) (Sample, bool)
 
 func buildSampleBinOp(expr *logql.BinOpExpr) (SampleOp, error) {
-	filter := expr.Modifier.ReturnBool
+	// Comparison gives 0 or 1 for every sample: that is what the bool modifier
+	// asks for, and comparison without the modifier does not filter either.
+	filter := false
 	boolOp := func(v, filter bool) (float64, bool) {
 		if v {
 			return 1., true
